@@ -1,3 +1,3 @@
--- This module serves as the root of the `GluonModel` library.
--- Import modules here that should be built as part of the library.
-import GluonModel.Basic
+-- Root of the library: everything that `lake build` (default target) must check.
+import GluonModel.Generated.Registry
+import GluonModel.Theorems.C05
